@@ -1,9 +1,9 @@
 SPECIFICATION Spec
-CONSTANTS Bits = 2
-          Poly = 7
+CONSTANTS Bits = 8
+          Poly = 285
           Basis <- BasisFor
-          MaxN = 4
-          MaxCfg = 4
+          MaxN = 7
+          MaxCfg = 10
           Corners = FALSE
 INVARIANTS EncInv DecInv
 CHECK_DEADLOCK FALSE
